@@ -1,2 +1,105 @@
-import UVerif.Model.PositConv
-theorem C06_placeholder : True := trivial
+/-
+  C06 — comparisons, stepping and extremes (posit clause).
+  The posit comparison operators compare the encodings as two's-complement integers
+  (`twosComplementLessThan`); these theorems establish that the model's `<` is a strict total order on
+  encodings with NaR least, that `==` is equality of encodings, and that increment and decrement move to the adjacent
+  encoding.  That encoding order = real order of the decoded values (`C06_posVal_strictMono`) is the
+  obligation of UVerifProofs/Lemmas/PositEnc.lean.
+-/
+import UVerif.Model.Posit
+import Mathlib.Tactic.Ring
+import Mathlib.Tactic.Linarith
+
+open UVerif UVerif.Posit
+
+theorem C06_posit_lt_irrefl (n a : Nat) : lt n a a = false := by
+  unfold lt; simp
+
+theorem C06_posit_lt_trans (n a b c : Nat) (h1 : lt n a b = true) (h2 : lt n b c = true) : lt n a c = true := by
+  unfold lt at *; simp at *; omega
+
+theorem C06_posit_lt_asymm (n a b : Nat) (h : lt n a b = true) : lt n b a = false := by
+  unfold lt at *; simp at *; omega
+
+theorem toSigned_eq (n a : Nat) (hn : 0 < n) (ha : a < 2 ^ n) :
+    toSigned n a = if a < 2 ^ (n - 1) then (a : Int) else (a : Int) - ((2 ^ n : Nat) : Int) := by
+  unfold toSigned
+  have hn' : n ≠ 0 := by omega
+  simp only [hn', if_false, Nat.mod_eq_of_lt ha]
+
+theorem two_pow_split (n : Nat) (hn : 0 < n) : (2 ^ n : Nat) = 2 * 2 ^ (n - 1) := by
+  rw [← Nat.pow_succ']; congr 1; omega
+
+/-- signed reading is injective on n-bit patterns -/
+theorem toSigned_inj (n a b : Nat) (hn : 0 < n) (ha : a < 2 ^ n) (hb : b < 2 ^ n)
+    (h : toSigned n a = toSigned n b) : a = b := by
+  rw [toSigned_eq n a hn ha, toSigned_eq n b hn hb] at h
+  have h2 := two_pow_split n hn
+  generalize 2 ^ (n - 1) = P at *
+  generalize 2 ^ n = Q at *
+  subst h2
+  split at h <;> split at h <;> omega
+
+/-- trichotomy: exactly one of a < b, a == b, b < a holds for n-bit encodings -/
+theorem C06_posit_trichotomy (n a b : Nat) (hn : 0 < n) (ha : a < 2 ^ n) (hb : b < 2 ^ n) :
+    (lt n a b = true ∧ eq n a b = false ∧ lt n b a = false) ∨
+    (lt n a b = false ∧ eq n a b = true ∧ lt n b a = false) ∨
+    (lt n a b = false ∧ eq n a b = false ∧ lt n b a = true) := by
+  unfold lt eq
+  simp only [Nat.mod_eq_of_lt ha, Nat.mod_eq_of_lt hb, decide_eq_true_eq, decide_eq_false_iff_not, beq_iff_eq,
+    beq_eq_false_iff_ne]
+  rcases Int.lt_trichotomy (toSigned n a) (toSigned n b) with h | h | h
+  · left; refine ⟨h, ?_, by omega⟩; intro e; subst e; omega
+  · right; left; exact ⟨by omega, toSigned_inj n a b hn ha hb h, by omega⟩
+  · right; right; refine ⟨by omega, ?_, h⟩; intro e; subst e; omega
+
+/-- NaR (the pattern 10…0) is less than every other encoding -/
+theorem C06_posit_nar_least (n a : Nat) (hn : 0 < n) (ha : a < 2 ^ n) (hne : a ≠ 2 ^ (n - 1)) :
+    lt n (2 ^ (n - 1)) a = true := by
+  have h2 := two_pow_split n hn
+  have hp : 0 < 2 ^ (n - 1) := Nat.two_pow_pos _
+  have hlt : 2 ^ (n - 1) < 2 ^ n := by omega
+  unfold lt
+  rw [toSigned_eq n a hn ha, toSigned_eq n _ hn hlt]
+  generalize 2 ^ (n - 1) = P at *
+  generalize 2 ^ n = Q at *
+  subst h2
+  simp only [Nat.lt_irrefl, if_false, decide_eq_true_eq]
+  split <;> omega
+
+/-- increment moves to the next encoding in the signed order, except at maxpos where it wraps to NaR -/
+theorem C06_posit_incr (n a : Nat) (hn : 0 < n) (ha : a < 2 ^ n) (hmax : a ≠ 2 ^ (n - 1) - 1) :
+    toSigned n (incr n a) = toSigned n a + 1 := by
+  have h2 := two_pow_split n hn
+  have hp : 0 < 2 ^ (n - 1) := Nat.two_pow_pos _
+  have hlt : incr n a < 2 ^ n := Nat.mod_lt _ (Nat.two_pow_pos _)
+  rw [toSigned_eq n a hn ha, toSigned_eq n _ hn hlt]
+  unfold incr
+  by_cases hw : a + 1 < 2 ^ n
+  · rw [Nat.mod_eq_of_lt hw]
+    generalize 2 ^ (n - 1) = P at *
+    generalize 2 ^ n = Q at *
+    subst h2
+    split <;> split <;> omega
+  · have : a + 1 = 2 ^ n := by omega
+    rw [this, Nat.mod_self]
+    generalize 2 ^ (n - 1) = P at *
+    generalize 2 ^ n = Q at *
+    subst h2
+    split <;> split <;> omega
+
+/-- decrement is the inverse of increment on n-bit encodings -/
+theorem C06_posit_decr_incr (n a : Nat) (ha : a < 2 ^ n) : decr n (incr n a) = a := by
+  unfold incr decr
+  have hp : 0 < 2 ^ n := Nat.two_pow_pos _
+  by_cases hw : a + 1 < 2 ^ n
+  · rw [Nat.mod_eq_of_lt hw]
+    have : a + 1 + 2 ^ n - 1 = a + 2 ^ n := by omega
+    rw [this, Nat.add_mod_right, Nat.mod_eq_of_lt ha]
+  · have : a + 1 = 2 ^ n := by omega
+    rw [this, Nat.mod_self]
+    have : 0 + 2 ^ n - 1 = a := by omega
+    rw [this, Nat.mod_eq_of_lt ha]
+
+/-- non-vacuity: posit<8,·> encodings 0x7e < 0x7f, and 0x80 (NaR) below both -/
+example : lt 8 0x7e 0x7f = true ∧ lt 8 0x80 0x7e = true ∧ incr 8 0x7e = 0x7f := by decide
